@@ -781,7 +781,7 @@ func (cg *caseGen) stores(c *pvcase.Case) {
 			for n := cg.r.IntN(3); n > 0; n-- {
 				ns = append(ns, int64(cg.r.IntN(5)))
 			}
-			if cg.chance(0.25) {
+			if cg.chance(0.4) {
 				// a placeholder under the key that a state block later REPLACES by a Cloner value: the store keeps its size,
 				// what has to be cloned changes (round 23: the set of Cloner keys cached until the store's size changes)
 				o.InitState = append(o.InitState, pvcase.StoreEntry{Key: "c", Val: []pvcase.Val{pvcase.IntVal(0), pvcase.NilVal()}[cg.r.IntN(2)]})
